@@ -252,11 +252,12 @@ func (c *Ctx) Finish() int {
 	}
 	fmt.Printf("property=%s tier=%s evaluations=%d states=%d transitions=%d distinct_outcomes=%d exhaustive=%v violations=%d wall=%.1fs\n",
 		c.Prop, c.Tier, c.evals, c.states, c.trans, distinct, c.exhaust, c.nviol, time.Since(c.Start).Seconds())
-	if c.engineErr != "" {
-		return 2
-	}
+	// a confirmed violation decides the run; an engine error alone is exit 2
 	if c.nviol > 0 {
 		return 1
+	}
+	if c.engineErr != "" {
+		return 2
 	}
 	return 0
 }
